@@ -50,37 +50,38 @@ structure Blocked where
   j : List Node   -- NodeJoined(n) already emitted and no opposite event since
   deriving Repr
 
+/-- the notification itself is an opposite event: a left notification for `n` unblocks
+    NodeJoined(n), a join notification unblocks NodeLeft(n) -/
+def unblock (b : Blocked) : Op → Blocked
+  | .left n _ => { b with j := b.j.filter (· != n) }
+  | .join n => { b with l := b.l.filter (· != n) }
+  | _ => b
+
+def leftsOf (evs : List Obs) : List Node := (evs.filter (·.isLeft)).map (·.node)
+def joinsOf (evs : List Obs) : List Node := (evs.filter (! ·.isLeft)).map (·.node)
+
 /-- what is wrong with one step, if anything.  `b` = blocked sets before the step. -/
 def stepVerdict (h : List Op) (i : Nat) (b : Blocked) (op : Op) (evs : List Obs) : Option String :=
-  let b1 : Blocked := match op with
-    | .left n _ => { b with j := b.j.filter (· != n) }
-    | .join n => { b with l := b.l.filter (· != n) }
-    | _ => b
-  let ls := (evs.filter (·.isLeft)).map (·.node)
-  let js := (evs.filter (! ·.isLeft)).map (·.node)
   if evs.any (·.node == self) then
     some (if (evs.filter (·.isLeft)).any (·.node == self) then "self-reported-left" else "self-reported-joined")
-  else if !ls.Nodup then some "two-NodeLeft-in-one-step"
-  else if !js.Nodup then some "two-NodeJoined-in-one-step"
+  else if !(leftsOf evs).Nodup then some "two-NodeLeft-in-one-step"
+  else if !(joinsOf evs).Nodup then some "two-NodeJoined-in-one-step"
   -- (when both kinds are emitted for one node in one step, each is the other's opposite event:
   --  their order inside the step is not observed, so this is read permissively)
-  else if ls.any (fun n => b1.l.contains n && !js.contains n) then some "second-NodeLeft-without-opposite-event"
-  else if js.any (fun n => b1.j.contains n && !ls.contains n) then some "second-NodeJoined-without-opposite-event"
+  else if (leftsOf evs).any (fun n => (unblock b op).l.contains n && !(joinsOf evs).contains n) then
+    some "second-NodeLeft-without-opposite-event"
+  else if (joinsOf evs).any (fun n => (unblock b op).j.contains n && !(leftsOf evs).contains n) then
+    some "second-NodeJoined-without-opposite-event"
   else
     match (evs.filter (·.isLeft)).find? (fun e => !gateOK h i e.node e.ts) with
     | some e => some s!"gate node={e.node} step={i} ts={e.ts}"
     | none => none
 
 def stepBlocked (b : Blocked) (op : Op) (evs : List Obs) : Blocked :=
-  let b1 : Blocked := match op with
-    | .left n _ => { b with j := b.j.filter (· != n) }
-    | .join n => { b with l := b.l.filter (· != n) }
-    | _ => b
-  let ls := (evs.filter (·.isLeft)).map (·.node)
-  let js := (evs.filter (! ·.isLeft)).map (·.node)
   -- both kinds for one node in one step: their order inside the step is not observed, so
   -- neither blocks afterwards (the permissive reading)
-  { l := (b1.l ++ ls).filter (!js.contains ·), j := (b1.j ++ js).filter (!ls.contains ·) }
+  { l := ((unblock b op).l ++ leftsOf evs).filter (!(joinsOf evs).contains ·),
+    j := ((unblock b op).j ++ joinsOf evs).filter (!(leftsOf evs).contains ·) }
 
 /-- first violation in an observed run, `none` = the property holds on it -/
 def verdictFrom (h : List Op) : Nat → Blocked → List Op → List (List Obs) → Option String
@@ -92,5 +93,17 @@ def verdictFrom (h : List Op) : Nat → Blocked → List Op → List (List Obs) 
 
 def verdict (h : List Op) (obs : List (List Obs)) : Option String :=
   if obs.length ≠ h.length then some "wrong-number-of-steps" else verdictFrom h 0 ⟨[], []⟩ h obs
+
+/-! ### the model's output as an observed run (what the driver prints, as data) -/
+
+def renderNode (n : Node) (e : Ev) : List Obs :=
+  (match e.left with | some t => [⟨true, n, t⟩] | none => []) ++
+  (match e.join with | some t => [⟨false, n, t⟩] | none => [])
+
+/-- the events of one step, for the nodes in `U` -/
+def renderStep (U : List Node) (o : Node → Ev) : List Obs := U.flatMap fun n => renderNode n (o n)
+
+/-- the model's run on `h`, observed on the nodes in `U` -/
+def renderRun (U : List Node) (h : List Op) : List (List Obs) := (run h).1.map (renderStep U)
 
 end GoaktVerif.Spec.C34
